@@ -134,6 +134,7 @@ Reference
 #########
 """
 
+import functools
 import inspect
 import logging
 import threading
@@ -1185,6 +1186,13 @@ class _RpcThread(QMI_Thread):
     def _check_and_get_method(self, request: QMI_MethodRpcRequestMessage):
         """Check if the object has the method requested and is RPC callable; if so, return it."""
         assert self._rpc_object is not None
+
+        # A property of the class is never RPC-callable; reject it without evaluating its getter
+        # (hasattr/getattr below would run the getter, and an exception raised by the getter would be
+        # reported to the caller instead of the unknown-RPC error).
+        class_attr = inspect.getattr_static(type(self._rpc_object), request.method_name, None)
+        if isinstance(class_attr, (property, functools.cached_property)):
+            raise QMI_UnknownRpcException("Method {!r} is not RPC-callable!".format(request.method_name))
 
         # Check that the method exists.
         if not hasattr(self._rpc_object, request.method_name):
